@@ -26,6 +26,30 @@ EXPLANATION = (
 )
 
 
+def _noise_mode_reads(ctx, prog, R):
+    """A target found to be noisy by the start-up test raises OS[uncertainty_handling_level] at run time; the logger's
+    ``noise_flag`` (SD column present) is fixed when the logger is built.  A branch of a BADS method that decides the noise
+    mode from the frozen flag treats an auto-detected stochastic target as deterministic."""
+    frozen = set()
+    init = R.logger_cls.find_method("__init__")
+    for t, v, s, k in iter_stores(init.node):
+        if isinstance(t, ast.Attribute) and isinstance(t.value, ast.Name) and t.value.id == "self" and isinstance(v, ast.Name) and "noise" in v.id:
+            frozen.add(t.attr)
+    for fn in prog.functions():
+        if fn.cls is not R.bads or fn.name == "__init__":
+            continue
+        for n in ast.walk(fn.node):
+            test = n.test if isinstance(n, (ast.If, ast.While, ast.IfExp)) else None
+            if test is None:
+                continue
+            reads_level = any(canon(x) == "OS[uncertainty_handling_level]" for x in ast.walk(test))
+            bad = [x for x in ast.walk(test) if isinstance(x, ast.Attribute) and x.attr in frozen and canon(x.value) in ("LOG", "self." + (R.logger_attr or "function_logger"))]
+            if bad:
+                ctx.fail(fn, n, f"the branch reads the logger's construction-time flag '{canon(bad[0])}' to decide the noise mode: a target detected as noisy at start-up is handled as deterministic here", construct=f"noise mode from {canon(bad[0])}")
+            elif reads_level:
+                ctx.ok(fn, n, "noise mode decided by OS[uncertainty_handling_level]")
+
+
 def check(ctx):
     prog = ctx.prog
     R = roles_of(prog)
@@ -103,6 +127,10 @@ def check(ctx):
                 if tg is None:
                     continue
                 ctx.check("T" in tg, lcall, node, "second output = the target's reported SD (or None)", "the SD handed back by an evaluation is not the SD the target reported at that call (e.g. a stored SD of an earlier observation): ysd_vec does not hold the reported SDs", construct=f"returned SD {canon(node.value.elts[1])} without target provenance")
+
+    # ------------------------------------------------------------------ R9
+    ctx.rule("R9", "noise-mode decisions of the optimizer read the run-time noise level, never the logger's construction-time flag", floor=3)
+    _noise_mode_reads(ctx, prog, R)
 
     # ------------------------------------------------------------------ R6
     ctx.rule("R6", "the final re-sampling runs for every noisy run with noise_final_samples > 0", floor=0)
